@@ -19,7 +19,7 @@ pub fn spec() -> Spec {
     Spec {
         prop: "C16",
         level: "exploration",
-        rule: "Arithmetic from the statement computed in the harness: for every executed transaction gasUsed <= saturating(12000 x L); a transaction whose allowance is below its need fails, and the state part of Obs (code, storage, nonces over the universe) before vs after a block containing only that transaction may differ in nothing but the sender's nonce; the estimate loop is closed: eth_estimateGas and eth_call are answered at a block boundary, then the same call is executed with L = ceil(estimate / 12000) and must succeed with the same output (trace output). Programs (no GAS/TIMESTAMP/PREVRANDAO dependence): burner loops 0..1e5, cold/warm storage writes and clears (refunds), memory expansion, CREATE, logs, revert-bubbling nested calls, standard and Bitcoin precompiles; L from 0 through need to 2^64-1; inscription, signed and parked-then-drained transactions. A call needing 1.3x the simulation gas limit (memory expansion) with twice that allowance must succeed as an inscription and as a signed transaction. Non-trivial = allowance was the binding constraint (failed for lack of gas, or gasUsed within 10% of the allowance) or an estimate above the 21000 floor whose loop closed; distinct by (program, situation).",
+        rule: "Arithmetic from the statement computed in the harness: for every executed transaction gasUsed <= saturating(12000 x L); a transaction whose allowance is below its need fails, and the state part of Obs (code, storage, nonces over the universe) before vs after a block containing only that transaction may differ in nothing but the sender's nonce; the estimate loop is closed: eth_estimateGas and eth_call are answered at a block boundary, then the same call is executed with L = ceil(estimate / 12000) - alone in its block, or as the last transaction behind neighbours of another sender that halt and burn allowances of 100 kB to 5 MB - and must succeed with the same output (trace output). Programs (no GAS/TIMESTAMP/PREVRANDAO dependence): burner loops 0..1e5, cold/warm storage writes and clears (refunds), memory expansion, CREATE, logs, revert-bubbling nested calls, standard and Bitcoin precompiles; L from 0 through need to 2^64-1; inscription, signed and parked-then-drained transactions. A call needing 1.3x the simulation gas limit (memory expansion) with twice that allowance must succeed as an inscription and as a signed transaction. Non-trivial = allowance was the binding constraint (failed for lack of gas, or gasUsed within 10% of the allowance) or an estimate above the 21000 floor whose loop closed; distinct by (program, situation).",
         assumptions: vec!["no claim of minimality: an undersized allowance is allowed to fail".into()],
         exhaustive: false,
         min_nontrivial: 2,
@@ -139,6 +139,30 @@ impl Bed {
         rc
     }
 
+    /// Execute one call as the last transaction of a block whose earlier transactions (of another
+    /// sender) halt on INVALID and thereby use up their whole allowance of `crowd[i]` bytes each.
+    /// An allowance belongs to its transaction: what the neighbours burn is none of its business.
+    pub fn exec_behind(&mut self, to: &str, data: &[u8], len: u64, crowd: &[u64]) -> Option<Value> {
+        let (ts, hash) = self.next_block();
+        let crowd_pk = format!("5120{:064x}", 0xc16c_0de0u64 + self.uniq);
+        let halt = hist::hx(&asm::tool_call(asm::OP_INVALID, &[], &[]));
+        for (i, l) in crowd.iter().enumerate() {
+            self.uniq += 1;
+            self.d.exec(Op::Call { pk: crowd_pk.clone(), target: Target::Addr(self.tool.clone()), data: Some(halt.clone()), enc: Enc::Hex, ctx: Ctx { ts, hash: hash.clone(), idx: i as u64 }, iid: format!("bed-{}i0", self.uniq), len: *l, txid: hist::ZERO_HASH.into() });
+        }
+        self.uniq += 1;
+        let idx = self.d.ntx;
+        let r = if to.is_empty() {
+            self.d.exec(Op::Deploy { pk: self.pk.clone(), data: hist::hx(data), enc: Enc::Hex, ctx: Ctx { ts, hash: hash.clone(), idx }, iid: format!("bed-{}i0", self.uniq), len, txid: hist::ZERO_HASH.into() })
+        } else {
+            self.d.exec(Op::Call { pk: self.pk.clone(), target: Target::Addr(to.to_string()), data: Some(hist::hx(data)), enc: Enc::Hex, ctx: Ctx { ts, hash: hash.clone(), idx }, iid: format!("bed-{}i0", self.uniq), len, txid: hist::ZERO_HASH.into() })
+        };
+        let rc = hist::receipts_in(&r).into_iter().next();
+        let n = self.d.ntx;
+        self.d.exec(Op::Finalise { ts, hash, count: n });
+        rc
+    }
+
     pub fn trace_output(&mut self, rc: &Value) -> Option<String> {
         match self.d.inst.call("debug_traceTransaction", json!([rc["transactionHash"]])) {
             Resp::Ok(t) if !t.is_null() => t["output"].as_str().map(|s| s.to_string()),
@@ -205,17 +229,29 @@ fn one_case(ctx: &WorkerCtx, rep: &mut WorkerReport, case_seed: u64) {
             (Resp::Ok(out), Resp::Ok(e)) => {
                 let e = hexq(e);
                 let len = (e + GAS_PER_BYTE - 1) / GAS_PER_BYTE;
-                let Some(rc) = bed.exec_alone(&p.to, &p.data, len) else {
+                // alone in its block, or behind neighbours that burn large allowances of their own
+                let crowd: Vec<u64> = match rng.below(6) {
+                    0 => vec![5_000_000],
+                    1 => vec![1_000_000; 5],
+                    2 => vec![4_194_304],
+                    3 => vec![100_000, 3],
+                    _ => vec![],
+                };
+                let exec = if crowd.is_empty() { bed.exec_alone(&p.to, &p.data, len) } else { bed.exec_behind(&p.to, &p.data, len, &crowd) };
+                let Some(rc) = exec else {
                     rep.inconclusive("no receipt");
                     continue;
                 };
                 if !check_allowance(rep, ctx.seed, &rc, len, &p.name) {
                     break;
                 }
+                if !crowd.is_empty() {
+                    rep.nontrivial(format!("estimate-loop-behind-halting-neighbours:{}-bytes", crowd.iter().sum::<u64>()));
+                }
                 if rc["status"].as_str() != Some("0x1") {
-                    violation(rep, "C16", ctx.seed, &format!("estimate-insufficient:{}", p.name.trim_end_matches(char::is_numeric)),
-                        format!("eth_estimateGas said {} gas for {}, but the same call submitted with inscription length ceil({}/12000) = {} failed", e, p.name, e, len),
-                        json!({"case_seed": case_seed, "network": net, "program": p.name, "estimate": e, "len": len, "receipt": rc, "call": call}));
+                    violation(rep, "C16", ctx.seed, &format!("estimate-insufficient:{}{}", p.name.trim_end_matches(char::is_numeric), if crowd.is_empty() { "" } else { ":behind-halting-neighbours" }),
+                        format!("eth_estimateGas said {} gas for {}, but the same call submitted with inscription length ceil({}/12000) = {} failed (earlier transactions of the block: {:?} bytes, all halting)", e, p.name, e, len, crowd),
+                        json!({"case_seed": case_seed, "network": net, "program": p.name, "estimate": e, "len": len, "receipt": rc, "call": call, "halting_neighbours_bytes": crowd}));
                     break;
                 }
                 if traces {
